@@ -78,6 +78,19 @@ def gen_cases(tier, seed):
                "db": rng.choice(("forest", "forest", "forest", "forest_norev", "base", "forget")), "root": 0,
                "rng_seed": rng.randrange(10 ** 6), "smallest": rng.random() < 0.3}
         k += 1
+    for i in range(nt // 2):
+        # size-reducing tables with cycles of one-way single-child rows: here the pruning
+        # databases owe a productive specification as well (see vuniv.table.random_table)
+        rng = intuniv.rng_for(seed, "C02p", i)
+        tb = table.random_table(rng, p_empty=0.1, positive=True)
+        for _ in range(rng.randint(1, 2)):
+            table.add_one_way_cycle(rng, tb)
+        if rng.random() < 0.5:
+            table.add_twin_unary_rows(rng, tb)
+        yield {"id": k, "kind": "table", "table": tb, "positive": True,
+               "db": rng.choice(("base", "base", "forget", "forest")), "root": 0,
+               "rng_seed": rng.randrange(10 ** 6), "smallest": rng.random() < 0.5}
+        k += 1
 
 
 def _truth_empty(c):
@@ -122,7 +135,10 @@ def run_table(case):
     vclock.install(vclock.VirtualClock(), vclock.BudgetClock(2))
     pack = table.build_pack(case["table"])
     forest = case["db"].startswith("forest")
-    m_spec.set_context(packs=[pack], judge_productivity=forest, truth_empty=None)
+    judge = forest or bool(case.get("positive"))
+    if judge and not forest:
+        cx.count("c02.pruning_database_judged_on_productivity")
+    m_spec.set_context(packs=[pack], judge_productivity=judge, truth_empty=None)
     s = CombinatorialSpecificationSearcher(table.Lab(case["root"]), pack, ruledb=gen.build_db(case["db"]))
     cx.see("table_db", case["db"])
     try:
